@@ -86,7 +86,9 @@ type Layer interface {
 	Refresh(ctx context.Context, hosts source.RegistryHosts, refspec reference.Spec, desc ocispec.Descriptor) error
 
 	// Verify verifies this layer using the passed TOC Digest.
-	// Nop if Verify() or SkipVerify() was already called.
+	// If this layer has already been verified, this only checks that the passed TOC Digest
+	// is the one this layer was verified with. Returns an error if SkipVerify() was
+	// already called because contents may have been used without verification.
 	Verify(tocDigest digest.Digest) (err error)
 
 	// SkipVerify skips verification for this layer.
@@ -420,7 +422,9 @@ type layer struct {
 	prefetchSize   int64
 	prefetchSizeMu sync.Mutex
 
-	r reader.Reader
+	r        reader.Reader
+	verified bool       // r was obtained from VerifyTOC (not from SkipVerify)
+	rMu      sync.Mutex // guards r and verified
 
 	closed   bool
 	closedMu sync.Mutex
@@ -431,10 +435,16 @@ type layer struct {
 	logFileAccess       bool
 }
 
+func (l *layer) getReader() reader.Reader {
+	l.rMu.Lock()
+	defer l.rMu.Unlock()
+	return l.r
+}
+
 func (l *layer) Info() Info {
 	var readTime time.Time
-	if l.r != nil {
-		readTime = l.r.LastOnDemandReadTime()
+	if r := l.getReader(); r != nil {
+		readTime = r.LastOnDemandReadTime()
 	}
 	return Info{
 		Digest:       l.desc.Digest,
@@ -471,14 +481,30 @@ func (l *layer) Verify(tocDigest digest.Digest) (err error) {
 	if l.isClosed() {
 		return fmt.Errorf("layer is already closed")
 	}
+	l.rMu.Lock()
+	defer l.rMu.Unlock()
 	if l.r != nil {
+		if !l.verified {
+			// Chunks may already have been served and cached without verification.
+			return fmt.Errorf("layer is already in use without verification; cannot verify it against %q", tocDigest)
+		}
+		// Already verified: the caller's digest must still be the digest of the TOC in use.
+		if actual := l.verifiableReader.Metadata().TOCDigest(); actual != tocDigest {
+			return fmt.Errorf("invalid TOC JSON %q; want %q", actual, tocDigest)
+		}
 		return nil
 	}
-	l.r, err = l.verifiableReader.VerifyTOC(tocDigest)
-	return
+	r, err := l.verifiableReader.VerifyTOC(tocDigest)
+	if err != nil {
+		return err
+	}
+	l.r, l.verified = r, true
+	return nil
 }
 
 func (l *layer) SkipVerify() {
+	l.rMu.Lock()
+	defer l.rMu.Unlock()
 	if l.r != nil {
 		return
 	}
@@ -622,10 +648,11 @@ func (l *layer) RootNode(baseInode uint32) (fusefs.InodeEmbedder, error) {
 	if l.isClosed() {
 		return nil, fmt.Errorf("layer is already closed")
 	}
-	if l.r == nil {
+	r := l.getReader()
+	if r == nil {
 		return nil, fmt.Errorf("layer hasn't been verified yet")
 	}
-	return newNode(l.desc.Digest, l.r, l.blob, baseInode, l.resolver.overlayOpaqueType, l.passThrough, l.logFileAccess)
+	return newNode(l.desc.Digest, r, l.blob, baseInode, l.resolver.overlayOpaqueType, l.passThrough, l.logFileAccess)
 }
 
 func (l *layer) ReadAt(p []byte, offset int64, opts ...remote.Option) (int, error) {
@@ -641,8 +668,8 @@ func (l *layer) close() error {
 	l.closed = true
 	defer l.blob.done(true) // Close reader first, then close the blob
 	l.verifiableReader.Close()
-	if l.r != nil {
-		return l.r.Close()
+	if r := l.getReader(); r != nil {
+		return r.Close()
 	}
 	return nil
 }
